@@ -11,6 +11,10 @@ type PathMatcher interface {
 
 type PathMatchExpression struct {
 	paths []segments
+
+	// when true, a candidate that is an ancestor of a selected path matches too. This
+	// is what selecting fields needs in order to reach the selected paths at all.
+	matchAncestors bool
 }
 
 // a single, denormalized list of idents after parsing expression
@@ -188,6 +192,13 @@ func (e *PathMatchExpression) PathMatches(base *Path, candidate *Path) bool {
 func (e *PathMatchExpression) match(segs segments, base *Path, candidate *Path) bool {
 	p := candidate
 	j := (candidate.Len() - base.Len()) - 1
+	if j < len(segs)-1 {
+		// candidate is not as deep as the selector
+		if !e.matchAncestors {
+			return false
+		}
+		segs = segs[:j+1]
+	}
 
 	// start navigation at the end of the tail as it would likely be more efficient the longer
 	// the path
